@@ -436,6 +436,13 @@ def gen_plan(seed, tier):
     plan['max_rounds'] = rng.randint(2, 8)
     plan['detectors'] = gen_detectors(rng, dim, plan['cost'], rng.randint(1, 4))
     plan['save'] = plan['mode'] == 'solve' and plan['limits'][0] <= 40 and rng.random() < 0.25     # a restart file every generation; restored afterwards
+    if rng.random() < 0.12:
+        # two solvers (different objectives, different starts) are given the SAME termination object and stepped in turn:
+        # what a condition reports for one solver is computed from that solver's own history
+        plan['mode'] = 'shared'; plan['save'] = False
+        plan['cost2'] = gen.gen_cost(rng, dim, ['quad', 'rosen', 'abs', 'flat', 'tied'])
+        plan['x02'] = gen.gen_x0(rng, dim)
+        plan['order'] = [rng.randrange(2) for _ in range(2 * plan['limits'][0])]
     plan['seed'] = seed
     return plan
 
@@ -938,7 +945,9 @@ def run_plan(plan):
                     orc.wrap(h)
                     if plan.get('save'):
                         s.SetSaveFrequency(1, run.fs.path('c11-restart.pkl'))
-                    if plan['mode'] == 'solve':
+                    if plan['mode'] == 'shared':
+                        run_shared(plan, run, h, orc)
+                    elif plan['mode'] == 'solve':
                         r = h.do({'op': 'solve'})
                         if r.get('exc'):
                             h.violate(ID, 'solve_raised', detail='Solve with %r raised %s: %s' % (plan['tree'], r['exc'], r.get('exc_msg')),
@@ -981,6 +990,41 @@ def run_plan(plan):
     return {'violations': viol, 'digest': hashlib.sha1(tr.encode()).hexdigest(), 'probes': run.probes, 'fired': run.fired,
             'sim_s': 0.0, 'nontrivial': bool(orc.fired), 'stats': {'cost_calls': len(run.evals), 'steps': h.steps_executed,
             'collapses_applied': orc.n_applied, 'relations': len(orc.relations), 'seam_crossings': run.ncross}}
+
+
+def run_shared(plan, run, h, orc):
+    """second solver sharing the first one's termination object; stepped in a seeded order; no collapse is applied"""
+    plan2 = dict(plan); plan2['cost'] = plan['cost2']; plan2['detectors'] = []
+    orc2 = CollapseOracle(plan2)
+    h2 = H11(run, plan2, [orc2])
+    lib = (_random_state(), )
+    import mystic.solvers as ms
+    cls = getattr(ms, engine.SOLVERS[plan['solver']])
+    s2 = cls(plan['dim'], plan.get('npop', 4)) if plan['solver'] in ('DE', 'DE2') else cls(plan['dim'])
+    h2.solvers['orig'] = s2
+    h2.cost = env.SimCost(plan2['cost'])
+    h2.tags.update(solver=plan['solver'], cost=plan2['cost']['model'], shared='second')
+    if plan['solver'] in ('DE', 'DE2'): s2.SetRandomInitialPoints([-3.0] * plan['dim'], [3.0] * plan['dim'])
+    else: s2.SetInitialPoints(list(plan['x02']))
+    s2.SetTermination(h.solver._termination)          # the very same object
+    s2.SetEvaluationLimits(plan['limits'][0], plan['limits'][1])
+    hs = (h, h2); done = [False, False]
+    run.probe('c11.shared_termination_runs')
+    for who in plan['order']:
+        if done[who]: who = 1 - who
+        if done[who]: break
+        hh = hs[who]
+        run.on_callback = hh._on_callback; run.pre_step = hh._pre_step
+        run.owner = 'shared%d' % who
+        r = hh.do({'op': 'step', 'n': 1})
+        if r.get('exc') or (r.get('ret') or (None,))[-1]: done[who] = True
+    run.on_callback = h._on_callback; run.pre_step = h._pre_step
+    h.violations.extend(h2.violations)
+
+
+def _random_state():
+    import random as _r
+    return _r.getstate()
 
 
 def restored_state(h, orc, run):
